@@ -4,14 +4,15 @@ import NanoVerif.Model.Loss
 
   Mirrors `do_vgrad` (value and gradient) of
     src/function/benchmark/{sphere, axis_ellipsoid, rotated_ellipsoid, chung_reynolds, schumer_steiglitz, sargan, trid,
-      zakharov, quadratic, maxq, maxhilb, chained_lq, chained_cb3I, chained_cb3II, kinks, exponential, geometric,
+      zakharov, quadratic, maxq, maxquad, maxhilb, chained_lq, chained_cb3I, chained_cb3II, kinks, exponential, geometric,
       cauchy, rosenbrock, qing, styblinski_tang, powell, dixon_price}.cpp
   and the value/gradient visitors of src/function/constraint.cpp:50-125 (`::vgrad` of `euclidean_ball_t`, `linear_t`,
   `quadratic_t`, `minimum_t`, `maximum_t`, `constant_t`).
 
   A point is a `List α` (its length is the dimension); every function is a pair `…F` (value) / `…G` (gradient or the
   sub-gradient the code returns). Parameters drawn at construction with libnano's RNG (`kinks`, `quadratic`,
-  `geometric-optimization`) are arguments of the model; the harness reproduces them with the constructor's own calls.
+  `geometric-optimization`) are arguments of the model; the harness reproduces them with the constructor's own calls
+  (for `maxquad`: with a copy of the constructor's fill formulas, the members being private).
   Generic over the scalar as `Model/Loss.lean`.
 -/
 namespace NanoVerif.Fn
@@ -196,6 +197,19 @@ def maxhilbG (x : List α) : List α :=
   let idx := argmax ((mulVec W x).map abs')
   let w := W.getD idx []
   smul (if dot x w < 0 then -1 else 1) w
+
+/-- maxquad.cpp:69-88: `kfx = x.dot(A_k * x - b_k)` for every `k` -/
+def mqVals : List (List (List α)) → List (List α) → List α → List α
+  | A :: As, b :: bs, x => dot x (vsub (mulVec A x) b) :: mqVals As bs x
+  | _, _, _ => []
+
+/-- maxquad.cpp: the largest `kfx`, `kmax` = the first `k` attaining it (`kfx > fx` starting from `lowest()`);
+    `gx = 2 * A_kmax * x - b_kmax`. The matrices `A_k` (symmetric, diagonally dominant) and the vectors `b_k` are filled at
+    construction with exp/cos/sin formulas: parameters of the model -/
+def maxquadF (As : List (List (List α))) (bs : List (List α)) (x : List α) : α := maxCoeff (mqVals As bs x)
+def maxquadG (As : List (List (List α))) (bs : List (List α)) (x : List α) : List α :=
+  let idx := argmax (mqVals As bs x)
+  vsub (smul 2 (mulVec (As.getD idx []) x)) (bs.getD idx [])
 
 end
 
